@@ -50,7 +50,7 @@ Theorem C19_whole_file_winner :
     merge_file o b t ot rs (wt0 t)
     = Some {| f_main := Some (if negb (bytes_eqb (text b) (text ot)) && negb (bytes_eqb (text t) (text ot))
                               then text ot else text t);
-              f_base := None; f_this := None; f_other := None; conflicted := false |}.
+              f_base := None; f_this := None; f_other := None; f_alike := None; conflicted := false |}.
 Proof. exact merge_file_shortcut. Qed.
 Print Assumptions C19_whole_file_winner.
 
@@ -64,14 +64,52 @@ Theorem C19_helpers_exact :
 Proof. exact helpers_exact. Qed.
 Print Assumptions C19_helpers_exact.
 
-(* take-this / take-other leave exactly THIS / OTHER, no helper file, no conflict record (no guard) *)
+(* resolve (done / take-this / take-other) on ANY tree state with a recorded conflict, i.e. whatever
+   subset of .BASE/.THIS/.OTHER is still present: if it succeeds NO helper file remains, the record
+   is gone, an unrelated look-alike (<name>.BASE.orig) is untouched and the file holds what the
+   action says (no guard) *)
+Theorem C19_resolve_removes_all_helpers :
+  forall act w w',
+    conflicted w = true -> act <> ANone -> resolve act w = Some w' ->
+    f_base w' = None /\ f_this w' = None /\ f_other w' = None /\ conflicted w' = false
+    /\ f_alike w' = f_alike w
+    /\ f_main w' = match act with TakeThis => f_this w | TakeOther => f_other w | _ => f_main w end.
+Proof. exact resolve_removes_all_helpers. Qed.
+Print Assumptions C19_resolve_removes_all_helpers.
+
+(* Conflict.cleanup alone: every present helper is removed for every subset of present helpers *)
+Theorem C19_cleanup_removes_every_helper :
+  forall w,
+    f_base (cleanup w) = None /\ f_this (cleanup w) = None /\ f_other (cleanup w) = None
+    /\ f_main (cleanup w) = f_main w /\ f_alike (cleanup w) = f_alike w
+    /\ conflicted (cleanup w) = conflicted w.
+Proof. exact cleanup_all. Qed.
+Print Assumptions C19_cleanup_removes_every_helper.
+
+(* resolve fails (MalformedTransform, nothing changed) exactly when the winner helper is gone *)
+Theorem C19_resolve_fails_iff :
+  forall act w, conflicted w = true ->
+    (resolve act w = None <-> (act = TakeThis /\ f_this w = None) \/ (act = TakeOther /\ f_other w = None)).
+Proof. exact resolve_fails_iff. Qed.
+Print Assumptions C19_resolve_fails_iff.
+
+(* after a merge that recorded a conflict, whatever helpers the user removed by hand (rb rt ro) and
+   whether or not a look-alike was created: take-this / take-other / done leave exactly THIS / OTHER /
+   the marked text, no helper file, no conflict record (take-X needs its own helper) (no guard) *)
 Theorem C19_resolve_take_this_other :
-  forall o b t ot rs w,
+  forall o b t ot rs w rb rt ro alike,
     merge_file o b t ot rs (wt0 t) = Some w -> conflicted w = true ->
-    resolve TakeThis w = Some {| f_main := Some (text t); f_base := None; f_this := None;
-                                 f_other := None; conflicted := false |}
-    /\ resolve TakeOther w = Some {| f_main := Some (text ot); f_base := None; f_this := None;
-                                     f_other := None; conflicted := false |}.
+    (rt = false ->
+     resolve TakeThis (user_edit rb rt ro alike w)
+     = Some {| f_main := Some (text t); f_base := None; f_this := None; f_other := None; f_alike := alike;
+               conflicted := false |})
+    /\ (ro = false ->
+     resolve TakeOther (user_edit rb rt ro alike w)
+     = Some {| f_main := Some (text ot); f_base := None; f_this := None; f_other := None; f_alike := alike;
+               conflicted := false |})
+    /\ resolve ADone (user_edit rb rt ro alike w)
+     = Some {| f_main := f_main w; f_base := None; f_this := None; f_other := None; f_alike := alike;
+               conflicted := false |}.
 Proof. exact resolve_take. Qed.
 Print Assumptions C19_resolve_take_this_other.
 
